@@ -41,6 +41,8 @@ pub struct K {
     pub batch_period: u64,
     pub unbonding: u64,
     pub subdenom: String,
+    /// 0: monitors [mon, mon2]; 1: three monitors in descending address order; 2: ascending
+    pub monitor_order: u8,
 }
 
 impl K {
@@ -55,6 +57,7 @@ impl K {
             batch_period: 100,
             unbonding: 300,
             subdenom: "umilkTIA".into(),
+            monitor_order: 0,
         }
     }
     pub fn k1() -> K {
@@ -66,6 +69,10 @@ impl K {
     /// oracle but no treasury (fees accrue)
     pub fn k4() -> K {
         K { name: "K4".into(), treasury: false, ..K::k0() }
+    }
+    /// K0 with three monitors listed in descending (1) / ascending (2) address order
+    pub fn k5(order: u8) -> K {
+        K { name: format!("K5-{order}"), monitor_order: order, ..K::k0() }
     }
     pub fn k3(fee: u128) -> K {
         K { name: format!("K3-{fee}"), fee, ..K::k0() }
@@ -209,7 +216,20 @@ pub fn instantiate_msg(k: &K) -> InstantiateMsg {
         },
         liquid_stake_token_denom: k.subdenom.clone(),
         batch_period: k.batch_period,
-        monitors: vec![p20("mon"), p20("mon2")],
+        monitors: monitors_of(k),
+    }
+}
+
+pub fn monitors_of(k: &K) -> Vec<String> {
+    let mut three = vec![p20("mon"), p20("mon2"), p20("mon3")];
+    three.sort();
+    match k.monitor_order {
+        1 => {
+            three.reverse();
+            three
+        }
+        2 => three,
+        _ => vec![p20("mon"), p20("mon2")],
     }
 }
 
